@@ -102,7 +102,8 @@ example (env : Env) : GoodP env reachAt (4 * env.size + 11) (5 * (4 * env.size +
 
 /-- **C01 (scanning stage), every project**: whatever the root file, the files reachable through
     INCLUDE, the include graph (cyclic, missing and directory targets included), the ban set and the
-    fuel, the core's scanning loop never reaches a crash site of the scanner, never takes the value of
+    fuel, the core's scanning loop never reaches a crash site of the scanner, never hangs inside a call of
+    `Scanner.Next` (the model turns an exhausted byte-loop fuel into a crash site), never takes the value of
     a lexeme that is not a slice of its file, and never dereferences a nil `currentDirective` in
     processParameter or processAnnotation: the scanner of the file being read and of every suspended
     file stays in a state covered by the reach certificate, and whenever it may report a parameter or an
@@ -116,7 +117,7 @@ theorem C01_scanning_stage_crash_sites (fsys : FileSys) (n : Nat) (rootName : By
           = .error (.panic site)) :
     site = "processBody: currentDirective is nil" := by
   have := run_safe reachInputs reachAt C12.table_ok C12.root_in_reach fsys n _
-    ⟨good_init (mkEnv content lenAt) reachAt .stateRoot C12.root_in_reach, fun p hp => by cases hp⟩
+    ⟨⟨_, goodP_init (mkEnv content lenAt) reachAt .stateRoot C12.root_in_reach⟩, fun p hp => by cases hp⟩
     (fun hp => by simp [Sc.init] at hp) site h
   simpa [ScanStagePanic] using this
 
